@@ -265,6 +265,7 @@ def scan(src, module):
     toks = lex(src)
     S = sig(toks)
     fns, blocks, moddecls, derives, drops = [], [], [], [], []
+    private_consts = []
     unsafe_count = sum(1 for k in S if toks[k].kind == 'id' and toks[k].text == 'unsafe')
     loops = sum(1 for k in S if toks[k].kind == 'id' and toks[k].text in ('loop', 'while', 'for'))
 
@@ -421,6 +422,8 @@ def scan(src, module):
                 else:
                     j = jx + 1
             elif kw in ('use', 'const', 'static', 'type', 'extern'):
+                if kw in ('const', 'static') and not vis:
+                    private_consts.append(T(j).pos)
                 jx = j
                 while T(jx).text != ';':
                     if T(jx).text in ('(', '[', '{'):
@@ -441,4 +444,6 @@ def scan(src, module):
     for b in blocks:
         if b.kind == 'impl' and ' for ' in b.header:
             loops -= 1
-    return Scan(fns, blocks, moddecls, derives, drops, unsafe_count, loops), toks
+    sc = Scan(fns, blocks, moddecls, derives, drops, unsafe_count, loops)
+    sc.private_consts = private_consts
+    return sc, toks
